@@ -469,6 +469,20 @@ def mk_cmp(lhs: Term, op: str, rhs: Term) -> Formula:
     return ACmp(base, op, k)
 
 
+def drop_literals(f: Formula, pred) -> Formula:
+    """Remove (replace by TRUE) every literal - an atom or its negation - whose atom satisfies pred.  Used to set
+    aside conjuncts that are another rule's business before two guards are compared."""
+    if isinstance(f, FAnd):
+        return f_and(*[drop_literals(p, pred) for p in f.parts])
+    if isinstance(f, FOr):
+        return f_or(*[drop_literals(p, pred) for p in f.parts])
+    if isinstance(f, FNot):
+        return FTrue if pred(f.f) else f
+    if isinstance(f, FConst):
+        return f
+    return FTrue if pred(f) else f
+
+
 def atoms_of(f: Formula, acc=None) -> List[Formula]:
     if acc is None:
         acc = []
@@ -563,6 +577,17 @@ def compare(f: Formula, g: Formula, assume: Formula = FTrue, domain: str = 'int'
                 if i + 1 < len(ks):
                     vals.add((k + ks[i + 1]) / 2)
         reps[b] = sorted(vals)
+    # conjuncts of the assumption that speak about a single base prune that base's representatives up front
+    rest_assume = []
+    for cj in (assume.parts if isinstance(assume, FAnd) else (assume,)):
+        cats = atoms_of(cj)
+        bs = {a.base for a in cats if isinstance(a, ACmp)}
+        if cats and len(bs) == 1 and all(isinstance(a, ACmp) for a in cats):
+            b = next(iter(bs))
+            reps[b] = [v for v in reps[b] if eval_formula(cj, {b: v}, {})]
+        else:
+            rest_assume.append(cj)
+    assume = f_and(*rest_assume)
     total = 1
     for v in reps.values():
         total *= len(v)
@@ -570,16 +595,41 @@ def compare(f: Formula, g: Formula, assume: Formula = FTrue, domain: str = 'int'
     if total > cap:
         raise TooManyRegions(f"{total} regions")
     bkeys = list(reps)
-    for combo in itertools.product(*[reps[b] for b in bkeys]):
-        bv = dict(zip(bkeys, combo))
-        for bits in itertools.product((False, True), repeat=len(bools)):
-            tv = dict(zip(bools, bits))
-            if not eval_formula(assume, bv, tv):
+    bidx = {b: i for i, b in enumerate(bkeys)}
+    boolidx = {a: i for i, a in enumerate(bools)}
+    _cmp = {'<=': lambda v, k: v <= k, '<': lambda v, k: v < k, '>=': lambda v, k: v >= k, '>': lambda v, k: v > k,
+            '==': lambda v, k: v == k, '!=': lambda v, k: v != k}
+
+    def comp(h):
+        """Compile a formula into a function of (base representative indices, boolean atom values)."""
+        if isinstance(h, FConst):
+            v = h.v
+            return lambda bi, bo: v
+        if isinstance(h, FAnd):
+            ps = [comp(p) for p in h.parts]
+            return lambda bi, bo: all(p(bi, bo) for p in ps)
+        if isinstance(h, FOr):
+            ps = [comp(p) for p in h.parts]
+            return lambda bi, bo: any(p(bi, bo) for p in ps)
+        if isinstance(h, FNot):
+            q = comp(h.f)
+            return lambda bi, bo: not q(bi, bo)
+        if isinstance(h, ACmp):
+            i = bidx[h.base]
+            tab = [_cmp[h.op](v, h.k) for v in reps[h.base]]
+            return lambda bi, bo: tab[bi[i]]
+        j = boolidx[h]
+        return lambda bi, bo: bo[j]
+    cf, cg, ca = comp(f), comp(g), comp(assume)
+    bool_combos = list(itertools.product((False, True), repeat=len(bools)))
+    for bi in itertools.product(*[range(len(reps[b])) for b in bkeys]):
+        for bo in bool_combos:
+            if not ca(bi, bo):
                 continue
-            x, y = eval_formula(f, bv, tv), eval_formula(g, bv, tv)
+            x, y = cf(bi, bo), cg(bi, bo)
             if x != y:
-                cex = {repr(k): (str(v)) for k, v in bv.items()}
-                cex.update({repr(k): v for k, v in tv.items()})
+                cex = {repr(b): str(reps[b][bi[i]]) for b, i in bidx.items()}
+                cex.update({repr(a): bo[j] for a, j in boolidx.items()})
                 cex['_left'] = x
                 cex['_right'] = y
                 return cex
